@@ -17,7 +17,7 @@ func init() {
 		Level: "other",
 		Explanation: "Decided (structural necessary conditions of 'exclusion only deletes repeated marginal text'): (R11.1) FilterFragments is a pure subsequence filter: it returns its input or appends unmodified elements of it in one forward pass; (R11.2) a fragment is deleted only on paths that crossed the page-membership test, the margin-band test and (character-level or text match); (R11.3) in the root package every header/footer detection runs on the result of collectAllPages and every filtering call is applied to that detection's result under the exclude options; (R11.4) detection candidates are taken only from the margin band and keep their trimmed text; (R11.5) the occurrence threshold counts distinct pages; (R11.6) the filter compares trimmed texts on both sides, like detection does. " +
 			"Not decided: which text actually repeats in a given document, thresholds and tolerances, DOCX/ODT/PPTX part-based exclusion.",
-		Rules: []func(*eng.Ctx){ruleFluentExtractorEvaluated, constructorBypassedRule("R11.CL", "", "layout"), deleteInRangeRule("R11.DR", "layout", ""), rulePageNumberMatchFollowsDetection, ruleNoGroupSkippedByLength, ruleRegionPagesByMembership, ruleCandidateKeepsEdgeDistance, loopVarRule("R11.LV", "layout", "tabula", ""), rulePureFilter, ruleDeleteGuard, ruleDetectAllPages, ruleCandidates, ruleDistinctPages, ruleTextsMatch, ruleMatchIsEquality, roleRule("R11.R", "layout", "docx", "odt", "pptx"), ruleFilterPageIndex, ruleInputReadonly, rulePageOwnGeometry, ruleFilterResultKept},
+		Rules: []func(*eng.Ctx){ruleHeaderFooterDetectionEvaluated, ruleFluentExtractorEvaluated, constructorBypassedRule("R11.CL", "", "layout"), deleteInRangeRule("R11.DR", "layout", ""), rulePageNumberMatchFollowsDetection, ruleNoGroupSkippedByLength, ruleRegionPagesByMembership, ruleCandidateKeepsEdgeDistance, loopVarRule("R11.LV", "layout", "tabula", ""), rulePureFilter, ruleDeleteGuard, ruleDetectAllPages, ruleCandidates, ruleDistinctPages, ruleTextsMatch, ruleMatchIsEquality, roleRule("R11.R", "layout", "docx", "odt", "pptx"), ruleFilterPageIndex, ruleInputReadonly, rulePageOwnGeometry, ruleFilterResultKept},
 	})
 }
 
